@@ -165,19 +165,60 @@ const RECS: [&str; 23] = [
 ];
 const RECBAD: [&str; 4] = ["garbage", "garbage: x,y", "1,2,garbage", "Mode: garbage"];
 
+/// characters `str::trim_end` removes (White_Space), none of which has a 0x0A byte in UTF-16
+const BLANKS: [char; 9] = [' ', '\t', '\u{a0}', '\u{3000}', '\x0b', '\x0c', '\u{2028}', '\u{85}', '\r'];
+
+fn blanks(rng: &mut Rng, max: usize) -> String {
+    (0..rng.below(max + 1)).map(|_| *rng.pick(&BLANKS)).collect()
+}
+
+/// a bracketed line that is NOT one of the eleven headers, made from a real one by one seed-drawn edit
+fn near_header(rng: &mut Rng) -> String {
+    let name = *rng.pick(&SECTIONS);
+    match rng.below(12) {
+        0 => format!("[{}]", name.to_lowercase()),
+        1 => format!("[{}]", name.to_uppercase()),
+        2 => format!("[ {name}]"),
+        3 => format!("[{name} ]"),
+        4 => format!("{}[{name}]", rng.pick(&[" ", "\t", "\u{a0}", "  "])),
+        5 => format!("[{name}]{}{}", blanks(rng, 2), rng.pick(&["x", "// c", "]", "[", ":", "1"])),
+        6 => format!("[{name}"),
+        7 => format!("[[{name}]]"),
+        8 => format!("[{}]", &name[..name.len() - 1]),
+        9 => format!("[{name}s]"),
+        10 => {
+            // one letter changes case
+            let i = rng.below(name.len());
+            let t: String = name
+                .char_indices()
+                .map(|(j, c)| if j == i { if c.is_uppercase() { c.to_ascii_lowercase() } else { c.to_ascii_uppercase() } } else { c })
+                .collect();
+            format!("[{t}]")
+        }
+        _ => format!("[{name}][{name}]"),
+    }
+}
+
 pub fn spell(kind: &Value, rng: &mut Rng) -> String {
     let k = gets(kind, "k");
     match k {
-        "blank" => rng.pick(&["", "   ", "\t", " \t "]).to_string(),
+        "blank" => {
+            if rng.chance(1, 2) {
+                rng.pick(&["", "   ", "\t", " \t "]).to_string()
+            } else {
+                blanks(rng, 4)
+            }
+        }
         "comment" => rng.pick(&["// hello", "//", "//[General]", "// osu file format v3", "//Mode: 2"]).to_string(),
         "icomment" => rng.pick(&["  // x", "\t//y", " //[Metadata]"]).to_string(),
         "ver" => {
             let v = geti(kind, "v");
             // the number is what follows the LAST `v` of the line
-            match rng.below(8) {
+            match rng.below(9) {
                 0 => format!("osu file format v{v}   "),
                 1 => format!("osu file format v {v}"),
-                2 => format!("osu file format v+{v}"),
+                2 if v >= 0 => format!("osu file format v+{v}"),
+                8 => format!("osu file format v{v}{}", blanks(rng, 3)),
                 3 => format!("osu file format vv{v}"),
                 4 => format!("osu file format v1v{v}"),
                 5 => format!("osu file format v14 rev{v}"),
@@ -194,10 +235,13 @@ pub fn spell(kind: &Value, rng: &mut Rng) -> String {
             let s = gets(kind, "s");
             if rng.chance(1, 4) {
                 format!("[{s}]  ")
+            } else if rng.chance(1, 4) {
+                format!("[{s}]{}", blanks(rng, 3))
             } else {
                 format!("[{s}]")
             }
         }
+        "hdrx" if rng.chance(1, 2) => near_header(rng),
         "hdrx" => rng
             .pick(&["[Foo]", " [General]", "[General] x", "[general]", "[General] // c", "[General", "[]",
                     "[[General]]", "[ General ]", "[HitObject]", "[Colors]", "[Color]", "[Hitobjects]", "[TimingPoint]",
